@@ -3,7 +3,7 @@
    Matcher.v (boundary matcher), Limits.v (limits / status codes), Link.v (generated-from-source leafs).
    Model: Defs.v (per-byte step of multipart_parser::consume, header parser, request-level driver
    on_content_start / on_content_progress, urlencoded splitter). *)
-From CppcmsV Require Import Base.Tac Base.CSem Base.Sweep C12.Defs C12.Proofs C12.Matcher C12.Limits C12.Link gen.Gen_c12.
+From CppcmsV Require Import Base.Tac Base.CSem Base.Sweep C12.Defs C12.Proofs C12.Matcher C12.Limits C12.Roundtrip C12.Filter C12.Urlenc C12.Link gen.Gen_c12.
 Local Open Scope N_scope.
 
 (* ------------------------------------------------------------------------------------------ *)
@@ -108,6 +108,88 @@ Example matcher_nonvacuous :   (* key "ab", content full of look-alikes: CR, CR 
 Proof. split; vm_compute; reflexivity. Qed.
 
 (* ------------------------------------------------------------------------------------------ *)
+(* 2b. decode (encode parts) = parts                                                            *)
+(* ------------------------------------------------------------------------------------------ *)
+(* For every list of parts (any number) whose names / file names contain no CR, whose MIME type is
+   empty or in the normal form content_type::parse returns, and whose contents (ANY bytes) do not
+   contain CR LF - - key: the body produced by the reference encoder (Content-Disposition: form-data;
+   name="..."[; filename="..."] with backslash-escaped quotes, optional Content-Type line), delivered
+   under ANY chunking, with every form field within content_length_limit and the body within
+   multipart_form_data_limit, is accepted and the application gets exactly those entries: names,
+   file names, MIME types, contents byte for byte, in order. *)
+Theorem decode_encode : forall L ct key ps chunks, ~ In 13 key -> key <> [] ->
+  ct_boundary ct = FOk key ->
+  Forall (wf_part key) ps ->
+  Forall (fun p => size_ok (Some (content_length_limit L)) (file_of_part p) = true) ps ->
+  concat chunks = encode key ps ->
+  N.of_nat (length (encode key ps)) <= multipart_limit L ->
+  request_multipart L ct (length (encode key ps)) chunks = RReady (map file_of_part ps).
+Proof. exact decode_encode_request. Qed.
+Print Assumptions decode_encode.
+
+(* with the canonical header  multipart/form-data; boundary="key"  no hypothesis about the Content-Type is left *)
+Theorem decode_encode_canonical_header : forall L key ps chunks, ~ In 13 key -> key <> [] ->
+  Forall (wf_part key) ps ->
+  Forall (fun p => size_ok (Some (content_length_limit L)) (file_of_part p) = true) ps ->
+  concat chunks = encode key ps ->
+  N.of_nat (length (encode key ps)) <= multipart_limit L ->
+  request_multipart L (canonical_ct key) (length (encode key ps)) chunks = RReady (map file_of_part ps).
+Proof. exact decode_encode_canonical. Qed.
+Print Assumptions decode_encode_canonical_header.
+Theorem canonical_content_type_accepted : forall key,
+  ct_boundary (canonical_ct key) = FOk key /\ is_mp (canonical_ct key) = true.
+Proof. exact ct_boundary_canonical. Qed.
+Print Assumptions canonical_content_type_accepted.
+(* every lower-case token/token is a MIME type in normal form (wf_mime), e.g. text/plain, image/x-png *)
+Theorem mime_normal_form_sufficient : forall ty sub, ty <> [] -> sub <> [] ->
+  forallb ltchar ty = true -> forallb ltchar sub = true -> wf_mime (ty ++ 47 :: sub).
+Proof. exact wf_mime_tokens. Qed.
+Print Assumptions mime_normal_form_sufficient.
+
+(* the same at parser level (any limit, including none) *)
+Theorem parser_decode_encode : forall key lim ps, ~ In 13 key ->
+  Forall (wf_part key) ps -> Forall (fun p => size_ok lim (file_of_part p) = true) ps ->
+  exists s', feed (make_boundary key) lim init_state (encode key ps) = OEof s' /\ rev (rfiles s') = map file_of_part ps.
+Proof. exact feed_encode. Qed.
+Print Assumptions parser_decode_encode.
+
+(* the part-header parser inverts the encoder's header block *)
+Theorem part_headers_roundtrip : forall key p fuel, wf_part key p -> (3 <= fuel)%nat ->
+  process_header fuel (enc_headers p) empty_file = FOk (part_meta p).
+Proof. exact process_header_enc. Qed.
+Print Assumptions part_headers_roundtrip.
+
+(* quoted-string: unquote inverts quote for every byte string *)
+Theorem unquote_inverts_quote : forall s tail, parse_value (quote_str s ++ tail) = Some (s, tail).
+Proof. exact parse_value_quoted. Qed.
+Print Assumptions unquote_inverts_quote.
+
+Example decode_encode_nonvacuous :
+  Forall (wf_part [107]) ex_parts /\ ct_boundary ex_ct = FOk [107] /\ wf_mime [116;101;120;116;47;112;108;97;105;110] /\                         (* text/plain *)
+  wf_mime [97;112;112;108;105;99;97;116;105;111;110;47;111;99;116;101;116;45;115;116;114;101;97;109].  (* application/octet-stream *)
+Proof.
+  assert (forall m, (negb (is_nil m) && negb (existsb (N.eqb 13) m) && leqb (skip_ws m) m && leqb (media_type m) m)%bool = true -> wf_mime m) as W.
+  { intros m H. apply andb_true_iff in H. destruct H as [H H4]. apply andb_true_iff in H. destruct H as [H H3].
+    apply andb_true_iff in H. destruct H as [H1 H2].
+    assert (forall a b, leqb a b = true -> a = b) as LE.
+    { induction a as [|x a IH]; destruct b as [|y b]; cbn [leqb]; intros E; try discriminate; [reflexivity|].
+      apply andb_true_iff in E. destruct E as [E1 E2]. apply N.eqb_eq in E1. subst. f_equal. apply IH. exact E2. }
+    split; [destruct m; [discriminate|discriminate]|]. split.
+    - intros Hin. apply negb_true_iff in H2. assert (existsb (N.eqb 13) m = true) as E.
+      { apply existsb_exists. exists 13. split; [exact Hin|reflexivity]. } congruence.
+    - split; apply LE; assumption. }
+  assert (forall x key, containsb x (make_boundary key) = false -> ~ occurs (make_boundary key) x) as C.
+  { intros x key H Ho. apply containsb_spec in Ho. congruence. }
+  split; [|split; [vm_compute; reflexivity|split; apply W; vm_compute; reflexivity]].
+  unfold ex_parts. constructor; [|constructor; [|constructor]].
+  - split; [vm_compute; intuition discriminate|]. split; [intros fn E; discriminate|].
+    split; [left; reflexivity|apply C; vm_compute; reflexivity].
+  - split; [vm_compute; intuition discriminate|].
+    split; [intros fn E; inversion E; subst; vm_compute; intuition discriminate|].
+    split; [right; apply W; vm_compute; reflexivity|apply C; vm_compute; reflexivity].
+Qed.
+
+(* ------------------------------------------------------------------------------------------ *)
 (* 3. limits and status codes                                                                   *)
 (* ------------------------------------------------------------------------------------------ *)
 Theorem declared_length_over_multipart_limit_413 : forall L ct declared chunks,
@@ -195,6 +277,56 @@ Example limits_nonvacuous :
 Proof. repeat split; vm_compute; reflexivity. Qed.
 
 (* ------------------------------------------------------------------------------------------ *)
+(* 3b. content filters                                                                          *)
+(* ------------------------------------------------------------------------------------------ *)
+(* feed_f = feed + the chunking-independent multipart_filter callbacks (number of on_new_file calls, the
+   entries passed to on_data_ready).  Cutting the input anywhere changes neither the outcome nor what
+   the filter is told *)
+Theorem filter_events_cut_anywhere : forall bnd lim a b s acc, inv s -> b <> [] ->
+  feed_f bnd lim s (a ++ b) acc = then_feed_f bnd lim (feed_f bnd lim s a acc) b.
+Proof. exact feed_f_app. Qed.
+Print Assumptions filter_events_cut_anywhere.
+
+(* an accepted body: the filter has been shown exactly the delivered entries - each one once (as many
+   on_new_file as on_data_ready calls as entries), complete, in order *)
+Theorem filter_sees_each_entry_once : forall bnd lim body s' a,
+  feed_f bnd lim init_state body fev0 = (OEof s', a) ->
+  feed bnd lim init_state body = OEof s' /\ rreadyd a = rfiles s' /\ n_new a = N.of_nat (length (rfiles s')).
+Proof. exact filter_sees_delivered. Qed.
+Print Assumptions filter_sees_each_entry_once.
+
+(* the service-level model run against the real service (request_service) is the request model above *)
+Theorem service_model_is_request_model : forall L ct declared body, is_mp ct = true ->
+  rres_of_svc (request_service L false ct declared body) = request_multipart L ct declared [body].
+Proof. exact service_is_request. Qed.
+Print Assumptions service_model_is_request_model.
+
+Example filter_nonvacuous :
+  exists s' a, feed_f (make_boundary [107]) (Some 100) init_state ex_body fev0 = (OEof s', a) /\
+               n_new a = 2 /\ rev (rreadyd a) = map file_of_part ex_parts /\ is_mp ex_ct = true.
+Proof. eexists. eexists. split; [vm_compute; reflexivity|]. repeat split. Qed.
+
+(* ------------------------------------------------------------------------------------------ *)
+(* 3c. application/x-www-form-urlencoded                                                        *)
+(* ------------------------------------------------------------------------------------------ *)
+(* any list of (name, value) pairs of bytes with non-empty names, percent-encoded and joined by = and
+   ampersand, is split and decoded back to exactly those pairs, in order *)
+Theorem urlencoded_roundtrip : forall ps, Forall pair_ok ps -> parse_urlencoded (enc_pairs ps) = (ps, true).
+Proof. exact parse_urlencoded_enc. Qed.
+Print Assumptions urlencoded_roundtrip.
+Theorem urldecode_inverts_percent_encoding : forall s, bytes_ok s -> urldecode (pct s) = s.
+Proof. exact urldecode_pct. Qed.
+Print Assumptions urldecode_inverts_percent_encoding.
+Theorem urldecode_never_expands : forall n s, (length s <= n)%nat -> (length (urldecode s) <= length s)%nat.
+Proof. exact urldecode_short. Qed.
+Print Assumptions urldecode_never_expands.
+Example urlencoded_nonvacuous :
+  parse_urlencoded (enc_pairs [([97;38;61], [0;255;37;43]); ([98], [])]) = ([([97;38;61], [0;255;37;43]); ([98], [])], true) /\
+  parse_urlencoded [97;61;98;38;99] = ([([97],[98])], false) /\           (* a=b&c : the second item is refused, the first stays *)
+  parse_urlencoded [97;61;37;52;49;43;37;122;38] = ([([97],[65;32;122])], true).   (* a=%41+%z& *)
+Proof. repeat split; vm_compute; reflexivity. Qed.
+
+(* ------------------------------------------------------------------------------------------ *)
 (* 4. tie: leaf functions regenerated from private/http_protocol.h = the model's                *)
 (* ------------------------------------------------------------------------------------------ *)
 Theorem source_separator_is_model : forall b, b < 256 -> g_c12_separator (wraps 8 (Z.of_N b)) = separator b.
@@ -207,3 +339,6 @@ Theorem source_token_char_is_model : forall b, b < 256 ->
   (Z.leb 32 (wraps 8 (Z.of_N b)) && Z.leb (wraps 8 (Z.of_N b)) 126 && negb (g_c12_separator (wraps 8 (Z.of_N b))))%bool = tchar b.
 Proof. exact link_tchar. Qed.
 Print Assumptions source_token_char_is_model.
+Theorem source_xdigit_is_model : forall b, b < 256 -> g_c12_xdigit (wraps 8 (Z.of_N b)) = xdigit b.
+Proof. exact link_xdigit. Qed.
+Print Assumptions source_xdigit_is_model.
